@@ -1,4 +1,5 @@
 import ChessVerif.Props.C15
+import ChessVerif.Props.C15.Basic
 open Chess.Props.C15
 #print axioms bot_refines
 #print axioms bot_refines_from
